@@ -414,6 +414,12 @@ fn process_withdrawals_for_single_pool<C: ContentAddrStore>(
         .fold(0u128, |a, b| a.saturating_add(b));
     // get the state
     let mut pool_state = state.pools.get(pool).unwrap();
+    // more liquidity tokens than the pool ever issued cannot be redeemed (a test-network faucet
+    // can mint any denomination, including a pool's liquidity token); PoolState::withdraw
+    // asserts on it, so such requests are left alone
+    if total_liqs > pool_state.liqs {
+        return;
+    }
     let (total_left, total_write) = pool_state.withdraw(total_liqs);
     state.pools.insert(*pool, pool_state);
     // divvy up the lefts and rights
